@@ -224,7 +224,7 @@ def run_case(case, ctx):
     path = os.path.join(ctx.workdir, "c03.nix")
     if os.path.exists(path):
         os.remove(path)
-    it = Interp(path)
+    it = Interp(path, policy=case.get("policy", "fresh"))
     prog = case["prog"]
     nontrivial = False
     deleted_in = set()
@@ -314,6 +314,7 @@ def run_case(case, ctx):
             os.remove(path)
         except OSError:
             pass
+    flags.add("handles:" + case.get("policy", "fresh"))
     ctx.case(case, nontrivial, sorted(flags) or ["none"],
              sample={"prog": case["prog"][:10], "len": len(case["prog"])})
 
@@ -419,7 +420,7 @@ def case_strategy(draw, max_ops):
         if op["op"] in NAME_OPS and draw(st.integers(0, 3)) == 0:
             # duplicate attempt in the same parent as the entity just created
             out.append({"op": "dup_last", "how": draw(ops.HOW)})
-    return {"prog": out}
+    return {"prog": out, "policy": draw(st.sampled_from(["fresh", "cached", "two", "two"]))}
 
 
 def shards(tier, seed):
